@@ -375,6 +375,15 @@ class Run(tree.Item):
             raise EngineUnsupported("Run printed without head_tail")
         return RunText(self)
 
+    def generic_member(self):
+        """an arbitrary member of the run (L-M): what a stateless loop body does to it, it does to every member"""
+        g = self.__dict__.get("generic")
+        if g is None:
+            g = AbsNode(self.vf_name + "_member", layout="sym")
+            self.__dict__["generic"] = g
+            self.__dict__["generic_pre"] = {k: g.__dict__[k] for k in ("head", "tail", "pos", "size")}
+        return g
+
     def __eq__(self, o):
         """L-Z: two runs of equal length are pointwise equal iff their fingerprint sequences are equal"""
         if o is self:
@@ -436,6 +445,12 @@ class RunText:
         if not (isinstance(sep, str) and sep == self.run.op):
             raise EngineUnsupported("Run joined with a separator other than its operator")
         ups = self.run.__dict__.get("updates")
+        g = self.run.__dict__.get("generic")
+        if g is not None and any(g.__dict__[k] is not v for k, v in self.run.__dict__["generic_pre"].items()):
+            # members were updated through the generic member: the run's text is a function of the old text
+            # and of the member-wise update (here: of the new generic head/tail)
+            f = z3.Function("run_text_memberwise", z3.StringSort(), z3.StringSort(), z3.StringSort(), z3.StringSort())
+            return SymStr(f(self.run.jointext.t, S(g.head), S(g.tail)))
         if ups:
             # text of the run after a uniform head/tail update: a function of the old text and the inserted text
             t = self.run.jointext.t
